@@ -76,3 +76,7 @@ Theorem C07_rounded_rect_box : forall (w h r : R) (segments : Z) pts, (0 < r)%R 
   length pts = (4 * Z.to_nat (segments + 1))%nat /\ Forall (in_box 0 0 w h) pts /\
   In (Pt2 (w - r) h)%R pts /\ In (Pt2 w r) pts /\ In (Pt2 r 0)%R pts /\ In (Pt2 0 (h - r))%R pts.
 Proof. exact rounded_rect_box. Qed.
+(* the star: shoelace area -2 n inner outer sin(180/n) < 0, i.e. clockwise, for every n >= 2 and positive radii *)
+Theorem C07_star_clockwise : forall (n : Z) (inner outer : R), (2 <= n)%Z -> (0 < inner)%R -> (0 < outer)%R ->
+  area2 (star n inner outer) = (- (2 * IZR n * (inner * outer) * dsin (180 / IZR n)))%R /\ (area2 (star n inner outer) < 0)%R.
+Proof. intros n i o Hn Hi Ho. split; [apply star_area; lia|apply star_clockwise; assumption]. Qed.
